@@ -82,6 +82,24 @@ Proof.
 Qed.
 Print Assumptions C12_history_independence_partial.
 
+(* ... and with F13 fixed in the source (0f292e2) that is the FULL statement: every kind of call as history,
+   every self-contained non-getter kind as probe *)
+Theorem C12_history_independence : history_independence_full faithful.
+Proof.
+  exact (fun h c ic id Hs Hg =>
+           history_independence_gen faithful h [c] ic id
+             (proj2 (Forall_forall _ h) (fun c' _ => ok_hist_faithful (c_kind c')))
+             (ok_probe_faithful (c_kind c) Hs (plain_probe_all (c_kind c) Hg))).
+Qed.
+Print Assumptions C12_history_independence.
+
+(* marker copying: what jcopy_markers_execute lets through for an option is within what jcopy_markers_setup
+   switched on for that option (both tables regenerated from transupp.c); the sticky saving flags of earlier
+   calls therefore cannot add to the copied markers *)
+Theorem C12_copy_filter_within_setup : copy_filter_within_setup = true.
+Proof. exact copy_filter_lemma. Qed.
+Print Assumptions C12_copy_filter_within_setup.
+
 (* the getters report what tj3DecompressHeader left: probed after a header call with valid arguments *)
 Theorem C12_getters_after_header :
   forall (h : list call) (a1 a2 : list (string * Z)) (g : opk) ic id,
@@ -130,8 +148,9 @@ Print Assumptions C12_history_independence_fixed_model.
 (* the five fixes are present in the source (facts regenerated on this run) *)
 Theorem C12_fixes_present :
   skip_ignores_stale_cconvert = true /\ header_discards_old_icc = true /\ decodeyuv_resets_lossless = true /\
-  decodeyuv_resets_marker_flags = true /\ copy_critical_sets_precision_first = true /\ dest_forgets_newbuffer = true.
-Proof. exact (conj eq_refl (conj eq_refl (conj eq_refl (conj eq_refl (conj eq_refl eq_refl))))). Qed.
+  decodeyuv_resets_marker_flags = true /\ copy_critical_sets_precision_first = true /\ dest_forgets_newbuffer = true /\
+  decodeyuv_ignores_huffman_slots = true.
+Proof. exact (conj eq_refl (conj eq_refl (conj eq_refl (conj eq_refl (conj eq_refl (conj eq_refl eq_refl)))))). Qed.
 Print Assumptions C12_fixes_present.
 
 (* regressions: the model of the current source with exactly one fix taken out again shows the old
@@ -166,7 +185,7 @@ Print Assumptions C12_F11_regression.
 
 Example C12_probes_nonvacuous :
   is_selfc (KDecompress B8 true true true) = true /\ plain_probe (KDecompress B8 true true true) = true /\
-  plain_probe (KTransform true) = true /\ plain_probe (KCompress B12) = true.
+  plain_probe (KTransform true true) = true /\ plain_probe (KLegacyDecompress true false) = true.
 Proof. exact probes_nonvacuous. Qed.
 
 (* (3) what is reset: every parameter member of jpeg_compress_struct that the compressor
@@ -266,3 +285,9 @@ Theorem C12_every_call_returns_idle :
   forall fx c x, ok_hist fx (c_kind c) = true -> Inv x -> Inv (step fx c x).
 Proof. exact step_inv. Qed.
 Print Assumptions C12_every_call_returns_idle.
+
+(* legacy wrappers: the parameter members processFlags() assigns in the model are those the translator reads off
+   the source (same order); the translator itself fails when a flag lands in another member or a condition changes *)
+Theorem C12_source_process_flags : cset_targets (process_flags true) = process_flags_fields.
+Proof. exact process_flags_source. Qed.
+Print Assumptions C12_source_process_flags.
